@@ -19,6 +19,7 @@ REGISTRY = {
         "tests": [
             {"name": "TestC02Decode", "shards": 8, "shards_thorough": 16},
             {"name": "TestC02Hostile", "shards": 1},
+            {"name": "FuzzC02Decode", "shards": 1, "fuzz": True, "tier": "thorough", "fuzztime": "180s"},
         ],
         "require": {"mut:noncanonical:accepted": 20, "mut:wrapdepth:accepted": 5, "mut:wrapdepth:rejected": 5,
                     "mut:lengthfield:rejected": 20, "mut:hostile:rejected": 20},
@@ -42,6 +43,7 @@ REGISTRY = {
         "tests": [
             {"name": "TestC04Decode", "shards": 8, "shards_thorough": 16},
             {"name": "TestC04Stream", "shards": 8, "shards_thorough": 16},
+            {"name": "FuzzC04Frame", "shards": 1, "fuzz": True, "tier": "thorough", "fuzztime": "120s"},
         ],
         "require": {"c04:accepted": 1649, "c04:accepted-bad-body": 543, "c04:mut:extend": 712, "c04:mut:flip": 710, "c04:mut:len": 1308, "c04:mut:none": 1335, "c04:mut:ptype": 902, "c04:mut:random": 902, "c04:mut:stype": 905, "c04:mut:truncate": 724, "c04:rejected": 5307, "c04s:bad-length-huge": 385, "c04s:bad-length-small": 326, "c04s:boundaries": 959, "c04s:delay:idle-long": 502, "c04s:delay:none": 3645, "c04s:delay:short": 2421, "c04s:delay:stall": 1369, "c04s:drip-head": 860, "c04s:few": 1089, "c04s:many": 1091, "c04s:role:active": 1983, "c04s:role:passive": 2016},
     },
@@ -94,10 +96,11 @@ REGISTRY = {
     "C09": {
         "level": "fault_enumeration",
         "claim": "Send programs (sync W / no-W, async, reply, forward; unique tokens; concurrent goroutines) on 1-3 consecutive TCP generations of one open connection, each generation ended by a fault drawn from: peer close, reset, reply-then-close in one instant, stalled reader with a full async queue then reset, reset after a drawn byte count (mid-frame), T8 stall, dead linktest, Separate.req, write timeout, Close(); the raw peer records the generation of every frame and replays stale replies on the next generation. Checked: no token crosses generations, no reply completes a send of another generation, pending calls return at the instant the generation ends with the connection-closed error, queued async frames are never flushed later.",
-        "trust": "HSMS-SS only (SECS-I generations are exercised by C18's reconnect cases, not here). While the peer's window is closed the program is restricted to one writing goroutine (testing/synctest cannot advance time while a goroutine waits on the write mutex).",
+        "trust": "The fault menu above is HSMS-SS; SECS-I generations are covered by TestC09Secs1 (a send in flight while the line dies at a drawn protocol point). While the peer's window is closed the program is restricted to one writing goroutine (testing/synctest cannot advance time while a goroutine waits on the write mutex).",
         "technique": "property-based testing (rapid): generated fault plans x send programs on scripted connections in testing/synctest, generation-window invariant over the wire history",
         "tests": [
             {"name": "TestC09Generations", "shards": 8, "shards_thorough": 16},
+            {"name": "TestC09Secs1", "shards": 4, "shards_thorough": 16, "crash_is_violation": True},
         ],
         "require": {"c09:fault:close": 1023, "c09:fault:cut-mid-frame": 428, "c09:fault:linktest-dead": 419, "c09:fault:peer-close": 819, "c09:fault:peer-reset": 798, "c09:fault:reply-then-close": 568, "c09:fault:separate": 412, "c09:fault:stall-queue-reset": 559, "c09:fault:t8-stall": 415, "c09:fault:write-timeout": 489, "c09:gens:1": 1024, "c09:gens:2": 1017, "c09:gens:3": 958, "c09:pending-at-fault": 3988, "c09:role:active": 1484, "c09:role:passive": 1515, "c09:stale-replies-played": 999},
     },
@@ -212,6 +215,7 @@ REGISTRY = {
             {"name": "TestC14Total", "shards": 8, "shards_thorough": 16, "crash_is_violation": True},
             {"name": "TestC14Resources", "shards": 1, "crash_is_violation": True},
             {"name": "TestC14Concurrent", "shards": 4, "shards_thorough": 8, "race": True, "crash_is_violation": True},
+            {"name": "FuzzC14SML", "shards": 1, "fuzz": True, "tier": "thorough", "fuzztime": "180s", "crash_is_violation": True},
         ],
         "require": {"c14:some-rejected": 2000, "c14:all-accepted": 500, "shape:hint": 50, "shape:nest": 9, "c14conc": 100},
     },
